@@ -221,6 +221,10 @@ func (n *CIDRNode) getNode(cidr CIDR, includeIntermediates bool) *CIDRNode {
 }
 
 func (t *CIDRTrie) CoveredBy(cidr CIDR) bool {
+	if t.root == nil {
+		// Empty trie: there is no root to compare with (and nothing to cover).
+		return false
+	}
 	pfx := CommonPrefix(t.root.cidr, cidr)
 	return pfx == cidr
 }
